@@ -281,10 +281,10 @@ def check_success_iff_no_error(ctx, num=5):
                 continue
             if not norm.U(w.target).startswith(("c.", "container.", "victim.")):
                 continue
-        if w.fn.node is ci.node:
+        if same_fn(w.fn, ci):
             ok = isinstance(w.node, (ast.Assign, ast.AnnAssign)) and isinstance(w.node.value, ast.Constant) and w.node.value.value is None
             ctx.ob(num, "K1", "a new container has no error", ok, w.fn, w.node, detail=stmt_text(w.node))
-        elif w.fn.node is mc.node:
+        elif same_fn(w.fn, mc):
             p0 = mc.params()
             ok = isinstance(w.node, ast.Assign) and len(p0) >= 2 and norm.U(w.node.value) == p0[1]
             ctx.ob(num, "K1", "_mark_completed records the error it was given", ok, w.fn, w.node, detail=stmt_text(w.node))
@@ -296,7 +296,7 @@ def check_success_iff_no_error(ctx, num=5):
     ctx.touch(kill)
     for fn_, c in package_calls(P, "_mark_completed"):
         err = norm.kwarg(c, "error", 0)
-        if fn_.node is kill.node:
+        if same_fn(fn_, kill):
             kp = kill.params()
             ok = err is not None and len(kp) >= 2 and norm.is_name(err, kp[1])
             gk = cfg_of(kill, subst_env=False)
@@ -304,7 +304,7 @@ def check_success_iff_no_error(ctx, num=5):
             alive = norm.entails(gk.facts_at(c), ("truth", "self._completed", False))
             ctx.ob(num, "K2", "kill() marks the container failed with the given, non-empty error, and only if it has not ended yet", ok and nonempty and alive,
                    fn_, c, detail=f"error argument: {norm.U(err) if err is not None else None}; asserted non-empty: {nonempty}; asserted not completed: {alive}")
-        elif fn_.node is gen.node:
+        elif same_fn(fn_, gen):
             ok = err is None or (isinstance(err, ast.Constant) and err.value is None)
             gg = cfg_of(gen, subst_env=False)
             # only right after the COMPLETED transition of the last operator
